@@ -849,6 +849,7 @@ def c14(tier, rng, fam='C14'):
             out.append(b.q().done())
     # late messages for a finished stream (some encode to zero bytes) must not leave anything registered
     out += late_messages(fam)
+    out += unencodable_send(fam)
     # a unary call given up (cancel / deadline) while its reply is still on its way - or never comes: nothing
     # stays registered for it, whether or not the reply turns up later
     for how in ('cancel', 'deadline'):
@@ -906,6 +907,7 @@ def c06(tier, rng, fam='C06'):
     # messages that arrive after the handler has returned - including messages that encode to zero bytes -
     # are answered with at most a reset: nothing follows a stream's trailer, no second handler runs
     out += late_messages(fam)
+    out += unencodable_send(fam)
     return out
 
 
@@ -1272,4 +1274,37 @@ def paused_handler_backlog(fam):
                 for o in range(nother):
                     b.step('send', c=10 + o, pay='o%d.1' % o).step('recv', c=10 + o).step('close', c=10 + o).step('recv', c=10 + o)
                 out.append(b.q().done())
+    return out
+
+
+def unencodable_send(fam):
+    """SendMsg with a message the codec refuses, after k good messages, with j responses unread: nothing is
+    written for it, the stream ends with exactly one reset, the handler is told, the registrations go and
+    later operations on the stream fail; the connection serves the next call"""
+    out = []
+    for kind in ('bidi', 'cs'):
+        for k in (0, 1, 2):
+            for hprog in ('echo', 'drain', 'ctxwait'):
+                if hprog == 'ctxwait' and k > 1:
+                    continue      # (>= 2 envelopes ahead of the reset of a handler that does not receive: known finding D23, C07)
+                for unread in ((0, 1) if kind == 'bidi' and hprog == 'echo' and k > 0 else (0,)):
+                    hp = {'echo': [dict(o='echo')],
+                          'drain': [dict(o='drain'), ret(code=10, msg='gone')],
+                          'ctxwait': [dict(o='ctxwait'), ret(code=1, msg='ctx')]}[hprog]
+                    b = B(fam, '%s: unencodable message after %d good one(s), handler %s, %d response(s) unread' % (kind, k, hprog, unread),
+                          ser=bool(k % 2))
+                    b.step('sopen', c=1, kind=kind, hp=hp)
+                    for i in range(k):
+                        b.step('send', c=1, pay='g%d' % i)
+                        if kind == 'bidi' and hprog == 'echo' and not (unread and i == k - 1):
+                            b.step('recv', c=1)
+                    b.q()
+                    b.step('sendbad', c=1)
+                    b.q()
+                    b.step('send', c=1, pay='after')       # fails: the stream is over
+                    b.step('recv', c=1)
+                    b.step('close', c=1)
+                    b.q()
+                    b.step('ucall', c=2, pay='probe', hp=[ret(pay='fine')])
+                    out.append(b.q().done())
     return out
